@@ -65,6 +65,8 @@ fn len_strategy() -> impl Strategy<Value = usize> {
         6 => 1usize..100,
         3 => prop::sample::select(vec![1023usize - HEADER_LEN, 1024 - HEADER_LEN, 1025 - HEADER_LEN, 2048 - HEADER_LEN, 3073 - HEADER_LEN]),
         2 => 1000usize..3200,
+        // around typical buffer sizes (8 KiB, 16 KiB, 64 KiB)
+        1 => prop::sample::select(vec![8191usize - HEADER_LEN, 8192 - HEADER_LEN, 8193 - HEADER_LEN, 8192, 16385, 65535 - HEADER_LEN, 65536, 65537, 70_000]),
     ]
 }
 
